@@ -121,7 +121,7 @@ def undo_request(h):
     return None
 
 
-def tap_walk(ck, name, cfg, steps, coq_exprs, expect, hostile=0.0):
+def tap_walk(ck, name, cfg, steps, coq_exprs, expect, hostile=0.0, idle=False, zero_stage=None):
     rng = ck.rng
     env = world.make_env(cfg)
     env.reset()
@@ -169,7 +169,7 @@ def tap_walk(ck, name, cfg, steps, coq_exprs, expect, hostile=0.0):
     act_times = {a: [] for a, _ in taps}
     for st in range(steps):
         try:
-            env.step(rng.randrange(n) if not hostile or rng.random() < 0.15 else 0)
+            env.step(0 if idle else rng.randrange(n) if not hostile or rng.random() < 0.15 else 0)
         except Exception as e:
             ck.violation("scripted-agent-step-raises:%s" % type(e).__name__, "%s: env.step raised %r at step %d (threat-actor settings %s)"
                          % (name, e, st, {a: dict(start_step=g.config.agent_settings.start_step, frequency=g.config.agent_settings.frequency,
@@ -201,6 +201,21 @@ def tap_walk(ck, name, cfg, steps, coq_exprs, expect, hostile=0.0):
             h = ag.history[-1]
             if h.action != "do-nothing":
                 act_times[aname].append(st)
+                # only from its configured start node: everything TAP001 does itself runs on its starting node; what it has the
+                # C2 server do is addressed to the configured C2 server
+                if type(ag).__name__ == "TAP001" and "node_name" in h.parameters:
+                    c2 = ag.config.agent_settings.kill_chain.COMMAND_AND_CONTROL.c2_server_name
+                    allowed = {c2} if h.action.startswith("c2-server") else {ag.starting_node}
+                    ck.evaluations += 1
+                    if h.parameters["node_name"] not in allowed:
+                        ck.violation("tap-acted-from-unconfigured-node", "%s issued %s on %s at step %d (stage %d); its starting node is %s"
+                                     % (aname, h.action, h.parameters["node_name"], st, c, ag.starting_node),
+                                     {"scenario": name, "step": st, "agent": aname, "action": h.action, "parameters": {k: str(v) for k, v in h.parameters.items()}})
+                        return
+            if zero_stage is not None and type(ag).__name__ == "TAP001" and ((1 <= c < 100 and c > zero_stage) or c == 200):
+                ck.violation("tap-passed-a-stage-of-probability-zero", "%s reached stage %d although stage %d is configured with probability 0"
+                             % (aname, c, zero_stage), {"scenario": name, "step": st, "agent": aname, "zero_probability_stage": zero_stage})
+                return
         if env.game.calculate_truncated():
             break
     for aname, ag in taps:
@@ -303,6 +318,22 @@ def run(ck):
             if a["type"] in ("tap-001", "tap-003"):
                 a["agent_settings"]["repeat_kill_chain"] = rng.random() < 0.5
         tap_walk(ck, "pkg/" + nme, cfg, ck.n(70, 128), exprs, expect)
+        if "tap003" not in nme:
+            # an undisturbed attacker that restarts: the whole chain twice, every action from the configured nodes
+            cfg3 = copy.deepcopy(cfg)
+            for a in cfg3["agents"]:
+                if a["type"] == "tap-001":
+                    a["agent_settings"].update({"repeat_kill_chain": True, "repeat_kill_chain_stages": True, "frequency": 2, "variance": 0, "start_step": 1})
+            cfg3["game"]["max_episode_length"] = 200
+            tap_walk(ck, "pkg/%s + idle defender, attacker restarting" % nme, cfg3, ck.n(110, 160), exprs, expect, idle=True)
+            # a stage configured with probability 0 is never passed
+            zs, zname = rng.choice([(4, "PROPAGATE"), (5, "COMMAND_AND_CONTROL"), (6, "PAYLOAD")])     # the stages that hold a trial
+            cfg4 = copy.deepcopy(cfg3)
+            for a in cfg4["agents"]:
+                if a["type"] == "tap-001":
+                    a["agent_settings"]["kill_chain"][zname]["probability"] = 0
+                    a["agent_settings"]["repeat_kill_chain_stages"] = rng.random() < 0.5
+            tap_walk(ck, "pkg/%s + idle defender, %s probability 0" % (nme, zname), cfg4, ck.n(50, 80), exprs, expect, idle=True, zero_stage=zs)
         # a defender who removes what the attacker has just put in place (application, file, folder), with stages repeated or not
         for rs in ((False, True) if "tap003" not in nme else ()):       # TAP003 installs and creates nothing a defender could remove
             for rep in range(ck.n(2, 5)):
